@@ -234,15 +234,22 @@ func (p *poller) SetWrite(slot *Slot) error {
 func (p *poller) setRW(fd int, slot *Slot, flag PollerEvent) error {
 	events := &slot.Events
 	if *events&flag != flag {
-		atomic.AddInt64(&p.pending, 1)
-
 		oldEvents := *events
 		*events |= flag
 
+		var err error
 		if oldEvents == 0 {
-			return p.add(fd, createEvent(*events, slot))
+			err = p.add(fd, createEvent(*events, slot))
+		} else {
+			err = p.modify(fd, createEvent(*events, slot))
 		}
-		return p.modify(fd, createEvent(*events, slot))
+		if err != nil {
+			// The kernel did not take the registration: nothing is pending and the slot must not claim the event.
+			*events = oldEvents
+			return err
+		}
+
+		atomic.AddInt64(&p.pending, 1)
 	}
 	return nil
 }
